@@ -11,6 +11,10 @@ import Py4hwV.Proofs.C04Complete
     * `Acyclic` (= a ranking exists) ⇔ `NoCycle` (no path a → … → z → a, `acyclic_iff_noCycle`), and is implied by the existence of any valid schedule
       (`acyclic_of_schedule`), so:  a valid evaluation order exists  ⇒  the sorter finds one (`schedulable_sorted`).
 
+    * certificate form `accepted_of_inversions` (any ranking with fewer inversions than the limit), the quadratic-limit
+      decision statement `accepted_iff_noCycle_quadratic_limit`, and the NEGATIVE `depth2_needs_n_passes` (no depth-based
+      bound: a depth-2 netlist of n leaves can need n passes).
+
   NOT proved (open; no counterexample found — see notes/C04deep.md):
       theorem acyclic_accepted : Acyclic succs l → ∃ σ, topoSortCode succs l = some σ        -- for EVERY length
     which needs the conjectured bound "≤ n passes" (exhaustively true for n ≤ 5, n = 6 sampled, hill-climbing
@@ -92,5 +96,35 @@ example : ∃ σ, topoSortCode (fun u => if u = 0 then [] else [u - 1]) [0, 1, 2
     intro u hu w hw _
     simp at hu
     rcases hu with rfl | rfl | rfl | rfl <;> simp at hw <;> subst hw <;> decide⟩ (by decide)
+
+/-- certificate form: ANY ranking with fewer inversions than the pass limit guarantees acceptance (a netlist
+    instantiated almost in dependency order needs few passes, whatever its size) -/
+theorem accepted_of_inversions (succs : Nat → List Nat) (l : List Nat) (rk : Nat → Nat) (hr : Ranked succs l rk)
+    (limit : Nat) (hi : inv rk l < limit) :
+    ∃ σ, topoSort limit succs l = some σ ∧ σ.Perm l ∧ Respects succs σ := by
+  obtain ⟨σ, hσ⟩ := sortLoop_complete succs rk l hr limit l (List.Perm.refl _) hi
+  exact ⟨σ, hσ, topoSort_sound _ succs l σ hσ⟩
+
+/-- with a quadratic pass limit `max 1000 (n(n-1)/2+1)` instead of `max 1000 (n+1)` the sorter would be a decision
+    procedure for acyclicity at EVERY size (this is the statement a change of `maxloops` would make provable today) -/
+theorem accepted_iff_noCycle_quadratic_limit (succs : Nat → List Nat) (l : List Nat) (hn : l.Nodup) :
+    (∃ σ, topoSort (max 1000 (l.length * (l.length - 1) / 2 + 1)) succs l = some σ) ↔ NoCycle succs l := by
+  rw [← acyclic_iff_noCycle succs l hn]
+  exact accepted_iff_acyclic succs l hn _ (Nat.lt_of_lt_of_le (Nat.lt_succ_self _) (Nat.le_max_right _ _))
+
+/-- NEGATIVE: no bound in terms of the depth (longest dependency path) is possible.  The "hourglass" m sources → hub →
+    r sinks has depth 2, yet stored as [hub, sinks…, sources…] it needs exactly n = m+r+1 passes (here m = r = 3). -/
+def hourglass7 : Nat → List Nat := fun u => if u = 0 then [4, 5, 6] else if u ≤ 3 then [0] else []
+theorem depth2_needs_n_passes :
+    topoSort 6 hourglass7 [0, 4, 5, 6, 1, 2, 3] = none ∧
+    topoSort 7 hourglass7 [0, 4, 5, 6, 1, 2, 3] = some [1, 2, 3, 0, 6, 5, 4] := by decide
+
+/-! non-vacuity of the certificate form: 3 leaves already in dependency order have 0 inversions, one pass suffices -/
+example : ∃ σ, topoSort 1 (fun u => if u = 0 then [1] else if u = 1 then [2] else []) [0, 1, 2] = some σ ∧ σ.Perm [0, 1, 2] ∧
+    Respects (fun u => if u = 0 then [1] else if u = 1 then [2] else []) σ :=
+  accepted_of_inversions _ _ (fun u => u) (by
+    intro u hu w hw _
+    simp at hu
+    rcases hu with rfl | rfl | rfl <;> simp at hw <;> subst hw <;> decide) 1 (by decide)
 
 end C04
